@@ -1442,7 +1442,10 @@ MintExts(s, m) == {s.mint[m].exts[i] : i \in DOMAIN s.mint[m].exts}
         (de)initialized by that change.  Hence, in every state:
           lamports(position) = rent(216 bytes) + tick rent x (2 - number of its bounds lying in dynamic arrays, if it has liquidity)
           lamports(dynamic array) = rent(148 bytes) + tick rent x number of (position with liquidity, bound) pairs it holds
-        and the array is rent exempt at its current length, since a tick is initialized only while some such pair refers to it. *)
+        and the array is rent exempt at its current length, since a tick is initialized only while some such pair refers to it.
+        (Equalities of worlds in which accounts are created and funded by the program's instructions only: nobody donates lamports to a
+        position or an array, no account is pre-funded, receivers of closed accounts are wallets, the Rent sysvar is constant, and no position
+        predates the collection of tick rent - all true of the harness; with donations ">=" would remain.)                      *)
 TickRent == 779520                       \* 112 bytes x 3480 lamports per byte-year x 2 years
 RentMin(len) == (128 + len) * 6960
 DynAt(s, p, t) == IF \E a \in DOMAIN s.ta : s.ta[a].pool = p /\ s.ta[a].dyn /\ Holds(s, a, p, t) THEN 1 ELSE 0
@@ -1546,13 +1549,22 @@ WiderOK(pre, e, post) ==
 \* what the wider specification says about a REFUSED instruction
 WiderFailed(pre, e) ==
   \* (W8) a refusal is an error code, never an abort of the program (the one instruction that panics by design is the migration)
-  /\ Wider("W8.refusal_is_an_error_code_not_an_abort", ~e.panic \/ e.name = "migrate_repurpose_reward_authority_space")
-  /\ IF e.name = "open_position_with_token_extensions" /\ ~e.probe /\ "wider" \in DOMAIN e.args
-     THEN Wider("W1.token_extensions_open_never_refused_for_the_requirement", FALSE) ELSE TRUE
-  /\ IF e.name = "migrate_repurpose_reward_authority_space" /\ Id(e, "whirlpool") \in DOMAIN pre.pool
+  \* (and a reward index beyond the three slots: the account constraints of collect_reward(_v2) / set_reward_emissions(_v2) index the
+  \* reward array before the handler can answer InvalidRewardIndex - the unmodified program aborts there)
+  /\ Wider("W8.refusal_is_an_error_code_not_an_abort",
+           \/ ~e.panic \/ e.name = "migrate_repurpose_reward_authority_space"
+           \/ (e.name \in {"collect_reward", "collect_reward_v2", "set_reward_emissions", "set_reward_emissions_v2"} /\ Has(e.args, "index") /\ e.args.index >= 3))
+  \* (6067 = PositionWithTokenExtensionsRequired)
+  /\ IF e.name = "open_position_with_token_extensions"
+     THEN Wider("W1.token_extensions_open_never_refused_for_the_requirement", ~(e.err \doteq 6067)) ELSE TRUE
+  /\ IF e.name = "migrate_repurpose_reward_authority_space" /\ e.panic /\ Id(e, "whirlpool") \in DOMAIN pre.pool
      THEN Wider("W4.migration_refused_only_when_done", pre.pool[Id(e, "whirlpool")].ext2zero) ELSE TRUE
+  \* an open refused with that error code names a pool that carries the requirement (whatever the driver); in the wider driver, whose
+  \* ranges and bundle indexes are valid, a plain open is refused for no other reason
+  /\ IF e.name \in {"open_position", "open_position_with_metadata", "open_bundled_position"} /\ e.err \doteq 6067
+     THEN Wider("W1.refused_for_the_requirement_only_where_it_holds", HasSlot(e, "whirlpool") /\ Id(e, "whirlpool") \in DOMAIN pre.pool /\ NTRequired(pre, Id(e, "whirlpool"))) ELSE TRUE
   /\ IF e.name \in {"open_position", "open_position_with_metadata", "open_bundled_position"} /\ ~e.probe /\ "wider" \in DOMAIN e.args
-     THEN Wider("W1.plain_open_refused_only_for_the_requirement", APool(e) \in DOMAIN pre.pool /\ NTRequired(pre, APool(e))) ELSE TRUE
+     THEN Wider("W1.plain_open_refused_only_for_the_requirement", e.err \doteq 6067) ELSE TRUE
 
 (* the per-event transition *)
 IxOK(pre, e, post) ==
